@@ -284,7 +284,32 @@ def row_decodable(row, funcs, types_ok, pkg):
     for m, q in refs:
         if m.startswith(pkg + ".") and (m, q) not in types_ok:
             return False
+        if not m.startswith(pkg + ".") and not _foreign_type_resolves(m, q):
+            return False
     return True
+
+
+_FOREIGN = {}
+
+
+def _foreign_type_resolves(m, q):
+    """A type outside the fixture package (builtins, typing, the simulator's own helpers): does the stored name still lead to a
+    type by plain import + attribute access?  (E.g. the class of CPython's internal async-generator wrapper object is stored
+    as builtins.async_generator_wrapped_value, which is not an attribute of builtins.)"""
+    key = (m, q)
+    if m == "builtins" and q in ("NoneType", "NotImplementedType", "mappingproxy"):
+        return True   # the three hidden builtin types the trace encoding documents (types.* names stored under builtins)
+    if key not in _FOREIGN:
+        import importlib
+
+        try:
+            obj = importlib.import_module(m)
+            for part in q.split("."):
+                obj = getattr(obj, part)
+            _FOREIGN[key] = isinstance(obj, type) or m == "typing"
+        except Exception:
+            _FOREIGN[key] = False
+    return _FOREIGN[key]
 
 
 # ---------------------------------------------------------------------------------------------
